@@ -90,8 +90,10 @@ def r4(repo, res):
     for code, ver, want in [(0, True, ("return", "optimal")), (0, False, ("raise", "NoSolutionsError")),
                             (2, True, ("raise", "NoSolutionsError")), (1, True, ("return", "feasible")),
                             (6, True, ("return", "not_solved")), (4, True, ("return", "abnormal"))]:
-        model = Obj(Solve=lambda c=code: c, VerifySolution=lambda *a, v=ver: v, Objective=lambda: Obj(Value=lambda: 7.5))
-        me = Obj(model=model, ortools=Obj(Solver=S), STATUS=table)
+        from sa.lpmodel import SolverParameters
+
+        model = Obj(Solve=lambda *a_, c=code: c, VerifySolution=lambda *a, v=ver: v, Objective=lambda: Obj(Value=lambda: 7.5))
+        me = Obj(model=model, ortools=Obj(Solver=S, MPSolverParameters=SolverParameters), STATUS=table)   # (what parameters do to the answer is decided by R6)
         try:
             k, v = Evaluator({"self": me, "init": None}, consts=consts).run(_body(f))
         except Unfoldable as e:
@@ -376,6 +378,12 @@ def run(repo, res):
 
 
 MUTANTS = [
+    dict(name="R6 solver told to stop within one percent of the bound (seeded C05_c1 shape)", module="lpinterface", expect=["C05.R6"],
+         old="        status = self.model.Solve()\n", new="        params = self.ortools.MPSolverParameters()\n        params.SetDoubleParam(params.RELATIVE_MIP_GAP, 0.01)\n        status = self.model.Solve(params)\n"),
+    dict(name="benign: solver parameters without a gap", module="lpinterface", kind="benign",
+         old="        status = self.model.Solve()\n", new="        params = self.ortools.MPSolverParameters()\n        params.SetIntegerParam(params.PRESOLVE, params.PRESOLVE_ON)\n        status = self.model.Solve(params)\n"),
+    dict(name="R6 enumeration stops at an empty selection (seeded C05_c3 shape)", module="lpinterface", expect=["C05.R6"],
+         old="            yield status, obj, sorted_tuple(set(vv.keys()))", new="            if not vv:\n                return\n            yield status, obj, sorted_tuple(set(vv.keys()))"),
     dict(name="R1 one abssum bound dropped", module="lpinterface", expect="C05.R6",
          old='            self.addConstr(absvar - v >= 0, name=f"CABSR_{i}")\n', new=""),
     dict(name="R1 abssum sign flipped", module="lpinterface", expect="C05.R6",
